@@ -9,6 +9,8 @@ package db
 import (
 	"errors"
 	"fmt"
+	"math"
+	"strconv"
 	"strings"
 
 	"github.com/alicebob/sqlittle/sql"
@@ -106,7 +108,7 @@ func newCreateTable(ct sql.CreateTableStmt) (*Schema, error) {
 			Column:  c.Name,
 			Type:    c.Type,
 			Null:    c.Null,
-			Default: c.Default,
+			Default: defaultValue(c.Type, c.Default),
 			Collate: c.Collate,
 			Rowid:   false,
 		})
@@ -219,6 +221,92 @@ func newCreateTable(ct sql.CreateTableStmt) (*Schema, error) {
 	}
 
 	return st, nil
+}
+
+// defaultValue gives a column's DEFAULT the storage class SQLite gives it: the
+// column affinity is applied to the literal, the same as for stored values.
+// `n TEXT DEFAULT 7` reads as '7', `n INT DEFAULT '12'` as 12.
+// See https://sqlite.org/datatype3.html chapter 3, "Type Affinity".
+func defaultValue(typ string, def interface{}) interface{} {
+	t := strings.ToUpper(typ)
+	switch {
+	case strings.Contains(t, "INT"):
+		return numericAffinity(def, false)
+	case strings.Contains(t, "CHAR"), strings.Contains(t, "CLOB"), strings.Contains(t, "TEXT"):
+		if n, ok := def.(int64); ok {
+			return strconv.FormatInt(n, 10)
+		}
+		return def
+	case strings.Contains(t, "BLOB"), t == "":
+		return def
+	case strings.Contains(t, "REAL"), strings.Contains(t, "FLOA"), strings.Contains(t, "DOUB"):
+		return numericAffinity(def, true)
+	default:
+		return numericAffinity(def, false)
+	}
+}
+
+// text which looks like a number becomes that number: an integer if it is one
+// (and, unless the column is REAL, also if it's a real with an integer value).
+func numericAffinity(def interface{}, real bool) interface{} {
+	if n, ok := def.(int64); ok && real {
+		return float64(n)
+	}
+	s, ok := def.(string)
+	if !ok {
+		return def
+	}
+	s = strings.Trim(s, " \t\n\r\f\v")
+	// [+-]digits[.digits][e[+-]digits], at least one digit before the exponent
+	i, digits, isInt := 0, 0, true
+	if i < len(s) && (s[i] == '+' || s[i] == '-') {
+		i++
+	}
+	for ; i < len(s) && s[i] >= '0' && s[i] <= '9'; i++ {
+		digits++
+	}
+	if i < len(s) && s[i] == '.' {
+		isInt = false
+		for i++; i < len(s) && s[i] >= '0' && s[i] <= '9'; i++ {
+			digits++
+		}
+	}
+	if digits == 0 {
+		return def
+	}
+	if i < len(s) && (s[i] == 'e' || s[i] == 'E') {
+		isInt = false
+		i++
+		if i < len(s) && (s[i] == '+' || s[i] == '-') {
+			i++
+		}
+		e := 0
+		for ; i < len(s) && s[i] >= '0' && s[i] <= '9'; i++ {
+			e++
+		}
+		if e == 0 {
+			return def
+		}
+	}
+	if i != len(s) {
+		return def
+	}
+	if isInt {
+		if n, err := strconv.ParseInt(s, 10, 64); err == nil {
+			if real {
+				return float64(n)
+			}
+			return n
+		}
+	}
+	f, err := strconv.ParseFloat(s, 64)
+	if err != nil && !math.IsInf(f, 0) {
+		return def
+	}
+	if !real && f > -9223372036854775808.0 && f < 9223372036854775808.0 && f == float64(int64(f)) {
+		return int64(f)
+	}
+	return f
 }
 
 // same columns with the same collations. Sort order doesn't matter.
